@@ -447,8 +447,13 @@ def _per_size_at_ref(ctx):
     if ctx.codec not in ('per', 'uper'):
         return False
     for n in ctx.tnodes():
-        if n.ty.kind == 'REF' and n.ty.size is not None and n.r.base.kind in ('BIT STRING', 'SEQUENCE OF', 'SET OF'):
-            return True
+        if n.ty.kind == 'REF' and n.ty.size is not None:
+            if n.r.base.kind in ('BIT STRING', 'SEQUENCE OF', 'SET OF'):
+                return True
+            if n.member is None:
+                # not a member: element of SEQUENCE/SET OF or a top-level 'B ::= A (SIZE(..))'; only
+                # compile_member applies the size of a reference
+                return True
     return False
 
 
@@ -468,4 +473,26 @@ def _c07_nested_choice(ctx):
             layers, r = asn.effective_tags(ctx.spec, m.ty, n.r.mod)
             if not layers and r.base.kind == 'CHOICE' and gen.is_ext(ctx.spec, r.base, r.mod):
                 return True
+    return False
+
+
+@finding('C05', 'per-aligned-from-reindex')
+def _per_aligned_from(ctx):
+    # per.py KnownMultiplierStringType.__init__ (aligned): when the power-of-two character width chosen for a
+    # FROM alphabet could also hold the type's whole built-in alphabet, characters are numbered by their
+    # position in the BUILT-IN alphabet; X.691 30.5.4 re-indexes within the permitted alphabet
+    if ctx.codec != 'per':
+        return False
+    full = {'NumericString': 11, 'PrintableString': 74, 'VisibleString': 95, 'IA5String': 128}
+    for n in ctx.tnodes():
+        k = n.r.base.kind
+        if n.r.alpha is None or k not in full:
+            continue
+        nperm = len(n.r.alpha.chars())
+        b = (nperm - 1).bit_length() if nperm > 1 else 0
+        b2 = 1
+        while b2 < b:
+            b2 *= 2
+        if b and full[k] <= 2 ** b2 and nperm != full[k]:
+            return True
     return False
